@@ -355,6 +355,12 @@ for _p, _w in (("C04", "exactly the selected branch of every Condition"), ("C05"
         "every test; constant guards by position), and the walk consumed exactly the queries asked. On the refinement fragment "
         "the faithful net model's traces satisfy it too (net_C04_fragment / net_C05_fragment). The monitor is applied to "
         "every implementation trace (mon_C04 = mon_C04ctx && mon_C02seq && mon_decide; mon_C05 = mon_C02seq && mon_decide).")
+CLAIMS["C08"]["text"] += (
+    " ERASURE ON THE FAITHFUL MODEL (NetC08Erase.v, Properties/C08.v): a rejected call - junk, a completion that is not "
+    "awaited, a repeated start - can be removed from ANY history of net_run_script (the transliteration of Scheduler.start / "
+    "fire_event / register), and so can a whole burst of them: the records of all later calls are equal and the record of the "
+    "rejected call shows the state before it with an empty log (C08_net_erase_rejected, C08_net_erase_rejected_burst, "
+    "C08_net_rejected_record; for every net, marking, scheduler state and fuel > 0).")
 CLAIMS["C15"]["text"] += (
     " PARAMETERS, all schedules (MonitorsParams.v, RefParams.v, Properties/C15params.v): every trace of the reference "
     "semantics satisfies mon_params (C15_params_programs): every task-started / service-started notification at a site carries "
